@@ -2,6 +2,7 @@ SPECIFICATION Spec
 CONSTANTS
   Alphabet = {10, 13, 32, 35, 36, 37, 39, 49, 95, 97}
   N = 5
+  Prefixes <- PrefixesNone
 INVARIANTS Lossless OneEofLast NonEmptyNonBlankStart Emit
 PROPERTIES Progress
 CHECK_DEADLOCK FALSE
